@@ -1,7 +1,7 @@
 """C06 Template tags and other atomic constructs are never split or displaced (structural clauses)."""
 
 from ..report import Ctx
-from ..rules import atomic, layout, wrap
+from ..rules import hazard, atomic, layout, wrap
 
 EXPLANATION = (
     'Decided over the folded constants of atomic_patterns / tag_handling: every AtomicPattern record is in ATOMIC_PATTERNS; '
@@ -21,6 +21,7 @@ EXPLANATION = (
 
 
 def run(ctx: Ctx) -> None:
+    ctx.rule('R-ESCAPE-SITE', 'the line-start escaper is only applied to whole tokens of the atomic-aware word splitter')
     ctx.rule('R-MEMO', 'a value kept across calls (closure / module / instance table) is keyed by everything it was computed from')
     ctx.rule('R-ATOMIC-table', 'ATOMIC_PATTERNS / ATOMIC_CONSTRUCT_PATTERN agree, paired before single, DOTALL')
     ctx.rule('R-ATOMIC-delims', 'per-entry delimiter consistency')
@@ -42,6 +43,7 @@ def run(ctx: Ctx) -> None:
     ctx.run(atomic.check_continuation_test)
     ctx.run(atomic.check_block_heuristics_indent_free)
     ctx.run(wrap.check_placeholders)
+    ctx.run(hazard.check_escaper_on_tokens)
     ctx.run(wrap.check_adjacency)
     ctx.run(wrap.check_word_placement)
     ctx.run(layout.check_parser_input)
